@@ -118,20 +118,51 @@ pub fn run(tier: &str, seed: u64, out: &mut Out) {
                 }
             }
         }
-        // import_group == adding directly
-        let mut sub = TmplGroup::new();
-        for (p, s) in g.files.iter().skip(1) {
-            sub.add_tmpl(p, s);
+        // import_group == adding directly, for every way of splitting the files and scripts between the importing and the
+        // imported group and for the import happening before or after the importing group's own additions
+        let mut imported_all: Vec<Vec<(String, String)>> = vec![];
+        let nf = g.files.len();
+        let ns = g.scripts.len();
+        // (files kept by main, scripts kept by main, import first?)
+        let mut splits: Vec<(Vec<usize>, Vec<usize>, bool)> = vec![
+            (vec![0], vec![], false),
+            (vec![], (0..ns).collect(), false),
+            (vec![], vec![], false),
+            ((0..nf).collect(), vec![], false),
+            (vec![0], (0..ns).step_by(2).collect(), false),
+            (vec![0], (0..ns).collect(), true),
+            ((0..nf).filter(|i| i % 2 == 1).collect(), (0..ns).filter(|i| i % 2 == 1).collect(), true),
+        ];
+        splits.dedup();
+        for (mf, ms, import_first) in &splits {
+            let mut sub = TmplGroup::new();
+            for (i, (p, s)) in g.files.iter().enumerate() {
+                if !mf.contains(&i) {
+                    sub.add_tmpl(p, s);
+                }
+            }
+            for (i, (p, s)) in g.scripts.iter().enumerate() {
+                if !ms.contains(&i) {
+                    sub.add_script(p, s);
+                }
+            }
+            let mut main = TmplGroup::new();
+            if *import_first {
+                main.import_group(&sub);
+            }
+            for i in ms {
+                main.add_script(&g.scripts[*i].0, &g.scripts[*i].1);
+            }
+            for i in mf {
+                main.add_tmpl(&g.files[*i].0, &g.files[*i].1);
+            }
+            if !*import_first {
+                main.import_group(&sub);
+            }
+            imported_all.push(all_artefacts(&main, &paths));
         }
-        for (p, s) in &g.scripts {
-            sub.add_script(p, s);
-        }
-        let mut main = TmplGroup::new();
-        main.add_tmpl(&g.files[0].0, &g.files[0].1);
-        main.import_group(&sub);
-        let imported = all_artefacts(&main, &paths);
         let r = reference.unwrap();
-        let import_equal = imported.iter().zip(r.iter()).all(|(a, b)| a.1 == b.1);
+        let import_equal = imported_all.iter().all(|imported| imported.iter().zip(r.iter()).all(|(a, b)| a.1 == b.1));
         let digest: Vec<String> = r.iter().map(|(k, s)| format!("{}={:016x}", k, fnv(s))).collect();
         let bundle = &r.iter().find(|x| x.0 == "tmpl_gen_object_groups").unwrap().1;
         let order = g_order(bundle, &paths);
